@@ -575,7 +575,7 @@ var vAnnos = []string{"", "", "canary", "Canary", "partition", "Partition", "PAR
 
 func pick[T any](c *Ctx, xs []T) T { return xs[c.Rng.Intn(len(xs))] }
 func ip(n int) *int                { return &n }
-func sp(s string) *string          { return &s }
+func validateSp(s string) *string          { return &s }
 
 // genSteps builds a plan that passes validation in most cases.
 func genSteps(c *Ctx, version string, blueGreen bool, limit int) []vStep {
@@ -658,7 +658,7 @@ func genTR(c *Ctx) vTR {
 	case 0, 1:
 		t.Ingress = &vIngress{ClassType: pick(c, []string{"", "nginx", "alb"}), Name: pick(c, []string{"ing-a", "ing-b"})}
 	case 2:
-		t.Gateway = &vGateway{Route: sp(pick(c, []string{"route-a", "route-b"}))}
+		t.Gateway = &vGateway{Route: validateSp(pick(c, []string{"route-a", "route-b"}))}
 	default:
 		t.CustomRefs = &[]vRef{{"networking.istio.io/v1alpha3", "VirtualService", pick(c, []string{"vs-a", "vs-b"})}}
 	}
@@ -836,7 +836,7 @@ func mutate(c *Ctx, version string, o *vObj) string {
 			case 1:
 				t.Gateway = &vGateway{}
 			default:
-				t.Gateway = &vGateway{Route: sp("")}
+				t.Gateway = &vGateway{Route: validateSp("")}
 			}
 		}
 		return "tr-provider-unnamed"
